@@ -3,7 +3,8 @@
 (* A payload is a sequence of at most MaxFragments fragments. Every fragment has the form  *)
 (* it takes inside a description (reStructuredText source, escaped so that docutils may    *)
 (* accept it) and the plain form it takes in an invariant message or a string constant.    *)
-(* A case puts the payload at the end, at the start or in the middle of a harmless text.   *)
+(* A case puts the payload at the end, at the start or in the middle of a harmless text,   *)
+(* or at the end of a long one (targets choose other layouts for long texts).              *)
 EXTENDS Integers, Sequences, FiniteSets, Json, IOUtils, TLC, SequencesExt
 CONSTANTS MaxFragments, MaxPatternFragments
 Fragments ==
@@ -31,18 +32,27 @@ Fragments ==
     [rst |-> <<92, 92, 117, 48, 48, 50, 97, 47>>, plain |-> <<92, 117, 48, 48, 50, 97, 47>>],   \* 22: Java Unicode escape of a star, then slash
     [rst |-> <<10>>, plain |-> <<10>>],   \* 23: single line feed inside a paragraph
     [rst |-> <<8232>>, plain |-> <<8232>>],   \* 24: LINE SEPARATOR U+2028
-    [rst |-> <<123>>, plain |-> <<123>>] >>   \* 25: opening brace
+    [rst |-> <<123>>, plain |-> <<123>>],   \* 25: opening brace
+    [rst |-> <<93, 93, 62>>, plain |-> <<93, 93, 62>>],   \* 26: CDATA section end
+    [rst |-> <<60, 33, 91, 67, 68, 65, 84, 65, 91>>, plain |-> <<60, 33, 91, 67, 68, 65, 84, 65, 91>>],   \* 27: CDATA section start
+    [rst |-> <<60, 63>>, plain |-> <<60, 63>>],   \* 28: processing instruction start
+    [rst |-> <<38, 108, 116, 59>>, plain |-> <<38, 108, 116, 59>>],   \* 29: entity reference as text
+    [rst |-> <<38, 35, 54, 48, 59>>, plain |-> <<38, 35, 54, 48, 59>>] >>   \* 30: character reference as text
 NF == Len(Fragments)
-Layouts == {"tail", "head", "mid"}
+\* "longtail": after a harmless text so long that a target switches to its multi-line form (Python docstrings at 64)
+Layouts == {"tail", "head", "mid", "longtail"}
 W == <<87>>                      \* the harmless text: W
+LongW == [i \in 1..78 |-> IF i % 6 = 0 THEN 32 ELSE 87]   \* WWWWW WWWWW ... (78 characters)
 RECURSIVE Cat(_, _)
 Cat(ids, field) == IF ids = <<>> THEN <<>>
                    ELSE (IF field = "rst" THEN Fragments[Head(ids)].rst ELSE Fragments[Head(ids)].plain) \o Cat(Tail(ids), field)
 Place(layout, p) == CASE layout = "tail" -> W \o <<32>> \o p
                       [] layout = "head" -> p \o <<32>> \o W
                       [] layout = "mid" -> W \o <<32>> \o p \o <<32>> \o W
+                      [] layout = "longtail" -> LongW \o <<32>> \o p
 IdSeqs == UNION {[1..k -> 1..NF] : k \in 1..MaxFragments}
-Cases == {[ids |-> ids, layout |-> l, rst |-> Place(l, Cat(ids, "rst")), plain |-> Place(l, Cat(ids, "plain"))] : ids \in IdSeqs, l \in Layouts}
+Cases == {[ids |-> ids, layout |-> l, rst |-> Place(l, Cat(ids, "rst")), plain |-> Place(IF l = "longtail" THEN "tail" ELSE l, Cat(ids, "plain"))] : ids \in IdSeqs, l \in Layouts}
+\* (the long text is for descriptions only: invariant messages stay short, long ones are wrapped into several literals)
 
 (* Patterns: the same idea for the regular expression of a verification function, which the targets *)
 (* put into string literals, into XSD / JSON schema and (C++) into comments next to the compiled     *)
